@@ -78,6 +78,7 @@ def run(prog, tier, extra=None):
     R5 = res.rule("C14.cached-work", "the cached routing work of the pool is reset or adjusted whenever pooled transactions are removed or inserted", floor=4)
     R6 = res.rule("C14.revalidate", "the pool is re-validated against the ledger on every block addition", floor=2)
     R3 = res.rule("C14.bundle-atomic", "bundle_block: no failure exit after the pool was drained without re-insertion", floor=1)
+    R8 = res.rule("C14.pool-types", "the pool's admission point cannot insert a transaction of a type that only a block may contain (Fee, ATR, SPV; Issuance once the chain has a block)", floor=4)
     R7 = res.rule("C14.refused-block-restored", "a refused block's transactions are offered back to the pool's insertion point: add_block_failure cannot finish, once it holds the block, without add_block_transactions_back", floor=1)
     fa = FieldAnalysis(prog)
     tx_sites, map_sites, map_sites_through = {}, {}, {}
@@ -491,6 +492,34 @@ def run(prog, tier, extra=None):
                             "transaction that was bundled into it is lost, not only those that conflict with the pool", abf.loc(path[-1]), {"path": describe_path(abf, path)}))
         else:
             res.sample({"rule": R7, "call": [abf.loc(x) for x in sorted(back)], "exempt_edges": len(missing), "verdict": "skipped only when the block is not stored"})
+
+    # R8: Transaction::validate serves block validation too and lets Fee / ATR / Issuance through without sender or signature (the
+    # block compares them with what it must contain). The pool admits on validate's word, so its admission point itself must keep
+    # those types out: a peer's Fee-typed message otherwise sits in the pool, is drained into the next bundled block and gets that
+    # block refused ("bundling yields a valid block"). Decided per type with the branch conditions evaluated for that type.
+    aiv = prog.body(CORE + "consensus::mempool::Mempool::add_transaction_if_validates::{closure#0}")
+    if aiv is None:
+        raise LookupError("Mempool::add_transaction_if_validates not found")
+    ch8 = Chaser(aiv)
+    ins8 = {bb for bb, t in aiv.calls() if ((t.get("res") or t.get("callee") or "").replace("::{closure#0}", "")).endswith("Mempool::add_transaction")}
+    empty_chain = gate.bool_switch_edges(aiv, ch8, lambda e: e[0] == "call" and e[1].rsplit("::", 1)[-1] == "is_empty" and
+                                         (has_field(e, "blockchain::Blockchain", "blocks") or has_field(e, "blockchain::Blockchain", "blockring")))
+    for v8 in ("Fee", "ATR", "SPV", "Issuance"):
+        res.instance(R8)
+        dead8 = gate.edges_not_taken_when(prog, aiv, ch8, "transaction::TransactionType", "transaction_type", v8)
+        if v8 == "Issuance":
+            dead8 = dead8 | empty_chain["true"]         # the genesis issuance of this node, while the chain is still empty
+        r8 = aiv.reachable(0, deleted_edges=dead8)
+        hit8 = sorted(x for x in ins8 if x in r8)
+        if not ins8:
+            res.add(Finding(R8, "C14.pool-types|anchors", "add_transaction_if_validates no longer calls Mempool::add_transaction (anchor moved?)", aiv.loc(0)))
+            break
+        if hit8:
+            res.add(Finding(R8, "C14.pool-types|%s" % v8, "Mempool::add_transaction_if_validates can insert a transaction of type %s%s: Transaction::validate asks that type for no sender or signature, "
+                            "so any peer can have one pooled; the next bundled block carries it and is refused by the node's own Block::validate"
+                            % (v8, " although the chain already has blocks" if v8 == "Issuance" else ""), aiv.loc(hit8[0])))
+        else:
+            res.sample({"rule": R8, "type": v8, "verdict": "insertion unreachable for this type"})
 
     # "the pool holds only transactions that are valid against the ledger": nothing enters it around Transaction::validate
     from ._include import include
